@@ -44,6 +44,7 @@ type c36sInput struct {
 	Max  int                 `json:"max"`            // MaxBatchSize of both transmissions
 	Beh  map[string][]c26Beh `json:"beh,omitempty"`  // fake API behaviour per batch (first event id) and attempt
 	Peer []c36PeerEv         `json:"peer,omitempty"` // events handed to the peer transmission before shutdown
+	Stall bool               `json:"stall,omitempty"` // Stop while decided traces are still in the collector's outgoing queue
 }
 
 const c36BT = int64(100 * time.Second)
@@ -177,6 +178,7 @@ func c36sGen(r *rand.Rand, tier string) c36sInput {
 	in := c36sInput{Kind: "shutdown", Beh: map[string][]c26Beh{}}
 	in.Coll = collGen(r, tier, collBias{Tick: 24, Eject: 6, Reload: 4})
 	in.Coll.ShrinkMax = 2
+	in.Stall = r.Intn(2) == 0
 	in.Max = []int{1, 2, 3, 3, 5, 8}[r.Intn(6)]
 	// mostly kept traces so that batches are pending at shutdown
 	if r.Intn(3) > 0 {
@@ -273,7 +275,7 @@ func c36sRun(in c36sInput) (Case, error) {
 			ops = append(ops, o)
 		}
 	}
-	cin.Ops = append(ops, collOp{Op: "stop"})
+	cin.Ops = append(ops, collOp{Op: "stop", Stall: in.Stall})
 	cin.Flush = false
 	var stopErr error
 	res, err := collRunOpts(cin, collOpts{
